@@ -48,6 +48,7 @@ type recSP struct {
 	started   int
 	shutdowns atomic.Int32
 	slow      bool
+	failClose bool // Shutdown does its work and then reports an error (an exporter that fails to close)
 }
 
 func newRecSP(name string) *recSP { return &recSP{name: name, ended: map[trace.SpanID]int{}} }
@@ -66,6 +67,9 @@ func (p *recSP) Shutdown(context.Context) error {
 		time.Sleep(200 * time.Microsecond)
 	}
 	p.shutdowns.Add(1)
+	if p.failClose {
+		return errors.New("scripted: the exporter behind this processor failed to close")
+	}
 	return nil
 }
 func (p *recSP) ForceFlush(context.Context) error { return nil }
@@ -80,7 +84,18 @@ type recSpanExp struct {
 	shutdowns              atomic.Int32
 }
 
+// readSpans reads every span of a batch the way any real exporter does when it encodes it.
+func readSpans(ss []sdktrace.ReadOnlySpan) {
+	for _, s := range ss {
+		_, _, _, _ = s.Name(), s.SpanContext(), s.Parent(), s.SpanKind()
+		_, _, _, _ = s.StartTime(), s.EndTime(), s.Attributes(), s.Events()
+		_, _, _, _ = s.Links(), s.Status(), s.Resource(), s.InstrumentationScope()
+		_, _, _, _ = s.DroppedAttributes(), s.DroppedEvents(), s.DroppedLinks(), s.ChildSpanCount()
+	}
+}
+
 func (e *recSpanExp) ExportSpans(_ context.Context, ss []sdktrace.ReadOnlySpan) error {
+	readSpans(ss)
 	e.exports.Add(int32(len(ss)))
 	if e.shutdowns.Load() > 0 {
 		e.afterShutdown.Add(1)
@@ -162,6 +177,12 @@ func runTraceSeq(k *vf.Case) {
 	procs := []*recSP{newRecSP("p0"), newRecSP("p1"), newRecSP("p2"), newRecSP("p3")}
 	var prog []string
 	logf := func(f string, a ...any) { prog = append(prog, fmt.Sprintf(f, a...)) }
+	if r.Chance(1, 4) {
+		fp := vf.Pick(r, procs)
+		fp.failClose = true
+		logf("(%s reports an error from its Shutdown)", fp.name)
+		k.C.Count("trace_programs_with_a_processor_failing_to_close", 1)
+	}
 	var opts []sdktrace.TracerProviderOption
 	var members []*recSP
 	if r.Bool() {
@@ -279,8 +300,15 @@ func runTraceSeq(k *vf.Case) {
 			}
 			if !shutdown && kind != "cancelled" {
 				shutdownLive = true
-				if err != nil {
+				failing := false
+				for _, m := range members {
+					failing = failing || m.failClose
+				}
+				if err != nil && !failing {
 					fail("shutdown-error", kind, err.Error())
+				}
+				if err == nil && failing {
+					fail("shutdown-error-swallowed", kind, "a registered processor's Shutdown returned an error, TracerProvider.Shutdown returned nil")
 				}
 				for _, m := range members {
 					if m.shutdowns.Load() != 1 {
@@ -981,6 +1009,7 @@ type slowSpanExp struct {
 }
 
 func (e *slowSpanExp) ExportSpans(ctx context.Context, ss []sdktrace.ReadOnlySpan) error {
+	readSpans(ss)
 	e.run(e.d)
 	return nil
 }
